@@ -16,8 +16,8 @@ def gtbInit : GtbState := []
 def gtbLookup (ss : GtbState) (sid : String) : Option GtbSid := (ss.find? (fun p => p.1 == sid)).map (·.2)
 def gtbSet (ss : GtbState) (sid : String) (s : GtbSid) : GtbState := (sid, s) :: ss.filter (fun p => p.1 != sid)
 
-def showNats (l : List Nat) : String := ",".intercalate (l.map toString)
-def gtbDigest (b : Bank) : String := s!"R={b.remaining} conf={showBool b.confirmed} bal=[{showNats b.balances}]"
+def gtbShowNats (l : List Nat) : String := ",".intercalate (l.map toString)
+def gtbDigest (b : Bank) : String := s!"R={b.remaining} conf={showBool b.confirmed} bal=[{gtbShowNats b.balances}]"
 
 def gtbEngine (ss : GtbState) (args : List String) : GtbState × String :=
   match args with
@@ -52,7 +52,7 @@ def gtbEngine (ss : GtbState) (args : List String) : GtbState × String :=
     | some s, some g =>
       if g < 2 ^ 64 then
         match claim s.bank g with
-        | some (b, n, amts) => (gtbSet ss sid { s with bank := b }, s!"ok {n} [{showNats amts}] | {gtbDigest b}")
+        | some (b, n, amts) => (gtbSet ss sid { s with bank := b }, s!"ok {n} [{gtbShowNats amts}] | {gtbDigest b}")
         | none => (ss, s!"err | {gtbDigest s.bank}")
       else (ss, "bad-op")
     | _, _ => (ss, "bad-op")
